@@ -300,6 +300,7 @@ func (proxy *PgProxy) ProxyClientConnection(ctx context.Context, errCh chan<- ba
 		if skipUntilSync && !packet.terminatePacket {
 			if packet.messageType[0] == SyncMessageType {
 				skipUntilSync = false
+				proxy.clientConnection.SetWriteDeadline(time.Now().Add(network.DefaultNetworkTimeout))
 				n, err := proxy.clientConnection.Write(ReadyForQuery)
 				if err := base.CheckReadWrite(n, len(ReadyForQuery), err); err != nil {
 					errCh <- base.NewClientProxyError(err)
@@ -597,6 +598,8 @@ func (proxy *PgProxy) sendClientErrorResponse(msg string, logger *log.Entry) err
 			WithError(err).Errorln("Can't create PostgreSQL error message")
 		return err
 	}
+	// the deadline left on the connection is from the last answer of the database, which may be long ago
+	proxy.clientConnection.SetWriteDeadline(time.Now().Add(network.DefaultNetworkTimeout))
 	n, err := proxy.clientConnection.Write(errorMessage)
 	return base.CheckReadWrite(n, len(errorMessage), err)
 }
@@ -608,6 +611,8 @@ func (proxy *PgProxy) sendClientError(msg string, logger *log.Entry) error {
 			WithError(err).Errorln("Can't create PostgreSQL error message")
 		return err
 	}
+	// the deadline left on the connection is from the last answer of the database, which may be long ago
+	proxy.clientConnection.SetWriteDeadline(time.Now().Add(network.DefaultNetworkTimeout))
 	n, err := proxy.clientConnection.Write(errorMessage)
 	if err := base.CheckReadWrite(n, len(errorMessage), err); err != nil {
 		return err
